@@ -42,7 +42,7 @@ CHECKS = {
     "C04": (
         "core",
         "exploration",
-        "Exhaustive differential check of the three matchers against each other and against the documented relation: all 779 patterns over {a,b,'',?,#} of depth <= 4 (thorough: 5) x all 362 keys over {a,b,''} of depth <= 5 (282 k pairs), each on a fresh core: pget contains k <=> pdelete removes k <=> live subscriber notified <=> documented relation; misplaced # rejected by all three; auth matcher equal to the relation; plus 100 k random unicode/long-segment pairs. Exhaustive for the stated alphabet and depth, which covers every branch of the recursive matchers.",
+        "Exhaustive differential check of the three matchers against each other and against the documented relation: all 779 patterns over {a,b,'',?,#} of depth <= 4 (thorough: 5) x all 362 keys over {a,b,''} of depth <= 5 (282 k pairs), each on a fresh core: pget contains k <=> pdelete removes k <=> live subscriber notified <=> documented relation; misplaced # rejected by all three; auth matcher equal to the relation; the same for 12 k cases in which another client's subscription coexists in the subscriber tree (alive or already ended), enumerated over {a,?,#} to depth 3; plus 600 k random unicode/long-segment pairs with 0-2 such bystanders. Exhaustive for the stated alphabet and depth, which covers every branch of the recursive matchers.",
         "The documented relation is taken from README.md ('key starts with my/key/') and specification.md; the empty string is excluded as key and as pattern (the server refuses the empty key). D3 (K/# vs K) is a listed known finding pinned by existing tests.",
         "property-based testing: exhaustive enumeration + proptest pairs, 3-way differential against a documented-relation oracle",
         "DESIGN.md §5 C04",
@@ -130,8 +130,8 @@ CHECKS = {
     "C15": (
         "core+wire",
         "exploration",
-        "Two generated searches: (1) exhaustive containment - all 115 600 (grant, request) pairs of patterns over {a,b,?,#} up to depth 4: whenever the authorization matcher accepts the request for the grant, every key over {a,b} up to depth 5 selected by the request must be selected by the grant; (2) 3 k (thorough 150 k) sessions against a server with an HS256 key: harness-minted tokens (valid/expired/wrong secret/garbage/none) with generated grant lists, 1-15 requests over 17 request kinds, an unrestricted observer reads the store around every request: nothing served/changed before a valid token, served => covered for the right privilege, refused => err 14 and no effect.",
-        "'Covered' is decided over a finite key universe (keys over {a,b,c} to depth 4 + some $SYS keys) with the most permissive matching relation on both sides, so it can miss but not falsely accuse. Refusing a covered request is not a violation.",
+        "Two generated searches: (1) exhaustive containment - all 115 600 (grant, request) pairs of patterns over {a,ab,?,#} up to depth 4 (ab is a string extension of a, so segment boundaries matter): whenever the authorization matcher accepts the request for the grant, every key over {a,ab} up to depth 5 selected by the request must be selected by the grant; (2) 3 k (thorough 150 k) sessions against a server with an HS256 key: harness-minted tokens (valid/expired/wrong secret/garbage/none) with generated grant lists, 1-15 requests over 17 request kinds, an unrestricted observer reads the store around every request: nothing served/changed before a valid token, served => covered for the right privilege, refused => err 14 and no effect.",
+        "'Covered' is decided over a finite key universe (keys over {a,ab,c} to depth 4 + some $SYS keys) with the most permissive matching relation on both sides, so it can miss but not falsely accuse. Refusing a covered request is not a violation.",
         "property-based testing: exhaustive pattern-pair enumeration + proptest sessions with a containment / observer oracle",
         "DESIGN.md §5 C15",
     ),
@@ -154,7 +154,7 @@ CHECKS = {
     "C18": (
         "process",
         "fault_enumeration",
-        "Crash sampling against a real server process with the ReDB backend: 550 (thorough 38 k) generated bursts of 1-40 pipelined requests (set, cset, delete, pdelete, registrations and their withdrawal) by one client, stopped by SIGKILL right after a generated answer was read, SIGKILL after a 0-5 ms pause, or SIGTERM; a second process on the same directory is read back (value, kind, CAS version of every user key) and must equal the state after some prefix of the sequence of single-key changes with that prefix's registrations applied - the whole sequence after a clean stop. The fraction of real cuts (an acknowledged change missing) is measured and reported (~25 %).",
+        "Crash sampling against a real server process with the ReDB backend: 550 (thorough 38 k) generated bursts of 1-40 pipelined requests (set, cset, delete, pdelete, registrations and their withdrawal) by one client on keys that include first segments which merely start like $SYS ($SYSx, $SYS-b), stopped by SIGKILL right after a generated answer was read, SIGKILL after a 0-5 ms pause, or SIGTERM; a second process on the same directory is read back (value, kind, CAS version of every user key) and must equal the state after some prefix of the sequence of single-key changes with that prefix's registrations applied - the whole sequence after a clean stop. The fraction of real cuts (an acknowledged change missing) is measured and reported (~25 %).",
         "Cuts depend on the background writer's timing and cannot be enumerated; they are sampled (level fault_enumeration refers to the enumerated stop kinds x generated positions, not to every cut). After a kill only the existence of an explaining prefix is required. One client only, so applied order = request order; the order inside a pdelete is taken from its answer.",
         "fault injection (SIGKILL/SIGTERM of a real process at generated points) + proptest request bursts with a prefix-consistency oracle over a reference model",
         "DESIGN.md §5 C18",
@@ -170,7 +170,7 @@ CHECKS = {
     "C20": (
         "client",
         "exploration",
-        "Four generated searches through the real worterbuch-client: (1) send buffer on tokio's paused clock through local_client_wrapper around a recording API - 20 k (thorough 400 k) schedules of set_later/publish_later around the delay: everything sent was handed in with that kind, per (kind,key) the sent values are a subsequence of the handed-in ones ending with the latest; (2) 1.5 k single-task sequences of the typed API against the reference model, every one of the four unsubscribe calls judged on the raw server stream after a barrier and on the server's own API; (3) 40 (thorough 1000) pairing runs with 8-32 tasks on cloned handles on a 4-thread runtime, values encode their key and per-task private keys give exact expectations.",
+        "Four generated searches through the real worterbuch-client: (1) send buffer on tokio's paused clock through local_client_wrapper around a recording API - 20 k (thorough 400 k) schedules of set_later/publish_later around the delay: everything sent was handed in with that kind, per (kind,key) the sent values are a subsequence of the handed-in ones ending with the latest; (2) 1.5 k single-task sequences of the typed API against the reference model, subscriptions made with the awaited and with the fire-and-forget subscribe calls, every one of the four unsubscribe calls judged on the raw server stream after a barrier and on the server's own API; (3) 40 (thorough 1000) pairing runs with 8-32 tasks on cloned handles on a 4-thread runtime, values encode their key and per-task private keys give exact expectations.",
         "Thread schedules of the pairing part are not seedable (only the generated calls are); close() of a local client wrapper deadlocks by construction and is not called. The unsubscribe oracle does not rely on timing.",
         "property-based testing: proptest schedules on a virtual clock (subsequence / latest-value oracle), model-based API sequences, concurrent pairing stress with key-encoding values",
         "DESIGN.md §5 C20",
